@@ -368,7 +368,184 @@ theorem runs_sum (G : Graph V) (f : V → List R → R) (root : V) (l : List V)
     rw [(h a (hl a List.mem_cons_self)).1, ih (fun v hv => hl v (List.mem_cons_of_mem _ hv))]
     omega
 
+/-- **A.4 / A.6** (value preservation by induction over the DAG).
+`meaning` gives every node its meaning from the meanings of its children
+(`g`); `sem` gives a *result* its meaning.  If every method satisfies its
+per-node contract -- the meaning of `f v rs` is `g v` applied to the meanings
+of the children's results -- then the result computed for every node means
+what the node means.  (With `traversal`: so does what the memoised mapper
+returns and caches.) -/
+theorem preserved {M : Type} (G : Graph V) (f : V → List R → R)
+    (g : V → List M → M) (meaning : V → M) (sem : R → M)
+    (hmeaning : ∀ v, meaning v = g v ((G.ch v).map meaning))
+    (hcontract : ∀ v rs, sem (f v rs) = g v (rs.map sem)) :
+    ∀ v, sem (den G f v) = meaning v := by
+  have key : ∀ n v, G.rank v < n → sem (den G f v) = meaning v := by
+    intro n
+    induction n with
+    | zero => intro v h; exact absurd h (Nat.not_lt_zero _)
+    | succ n ih =>
+      intro v hr
+      rw [den_eq, hcontract, hmeaning v, List.map_map]
+      congr 1
+      apply List.map_congr_left
+      intro c hc
+      have := G.dag v c hc
+      exact ih c (by omega)
+  intro v
+  exact key (G.rank v + 1) v (Nat.lt_succ_self _)
+
+/-- ... and therefore the memoised traversal returns a result that means what
+the root means. -/
+theorem traversal_preserves {M : Type} (G : Graph V) (f : V → List R → R)
+    (g : V → List M → M) (meaning : V → M) (sem : R → M)
+    (hmeaning : ∀ v, meaning v = g v ((G.ch v).map meaning))
+    (hcontract : ∀ v rs, sem (f v rs) = g v (rs.map sem)) (root : V) :
+    sem (recN G f (G.rank root + 1) root (empty : St V R)).1 = meaning root := by
+  rw [(traversal G f root).1]
+  exact preserved G f g meaning sem hmeaning hcontract root
+
+/-! ### A.3: structural equality is an equivalence, a congruence, and
+consistent with hashing
+
+Model of what the C04 contracts establish per node class: `EqualityComparer`
+returns true on two nodes iff their non-child fields (`lab`) are equal and
+their declared children are pairwise equal (same number, same order).  -/
+
+/-- pointwise comparison of two child lists -/
+def all2 (r : V → V → Bool) : List V → List V → Bool
+  | [], [] => true
+  | a :: as, b :: bs => r a b && all2 r as bs
+  | _, _ => false
+
+/-- the comparer, with fuel -/
+def eqN {L : Type} [DecidableEq L] (G : Graph V) (lab : V → L) : Nat → V → V → Bool
+  | 0, _, _ => true
+  | n + 1, a, b => decide (lab a = lab b) && all2 (eqN G lab n) (G.ch a) (G.ch b)
+
+theorem all2_refl (r : V → V → Bool) (l : List V) (h : ∀ a ∈ l, r a a = true) :
+    all2 r l l = true := by
+  induction l with
+  | nil => rfl
+  | cons a l ih =>
+    simp only [all2, Bool.and_eq_true]
+    exact ⟨h a List.mem_cons_self, ih (fun x hx => h x (List.mem_cons_of_mem _ hx))⟩
+
+theorem all2_symm (r : V → V → Bool) :
+    ∀ (l1 l2 : List V), (∀ a ∈ l1, ∀ b, r a b = true → r b a = true) →
+      all2 r l1 l2 = true → all2 r l2 l1 = true := by
+  intro l1
+  induction l1 with
+  | nil => intro l2 _ h; cases l2 with
+    | nil => rfl
+    | cons b bs => simp [all2] at h
+  | cons a l1 ih =>
+    intro l2 hs h
+    cases l2 with
+    | nil => simp [all2] at h
+    | cons b bs =>
+      simp only [all2, Bool.and_eq_true] at h ⊢
+      exact ⟨hs a List.mem_cons_self b h.1,
+        ih bs (fun x hx => hs x (List.mem_cons_of_mem _ hx)) h.2⟩
+
+theorem all2_trans (r : V → V → Bool) :
+    ∀ (l1 l2 l3 : List V),
+      (∀ a ∈ l1, ∀ b c, r a b = true → r b c = true → r a c = true) →
+      all2 r l1 l2 = true → all2 r l2 l3 = true → all2 r l1 l3 = true := by
+  intro l1
+  induction l1 with
+  | nil =>
+    intro l2 l3 _ h12 h23
+    cases l2 with
+    | nil => exact h23
+    | cons b bs => simp [all2] at h12
+  | cons a l1 ih =>
+    intro l2 l3 ht h12 h23
+    cases l2 with
+    | nil => simp [all2] at h12
+    | cons b bs =>
+      cases l3 with
+      | nil => simp [all2] at h23
+      | cons c cs =>
+        simp only [all2, Bool.and_eq_true] at h12 h23 ⊢
+        exact ⟨ht a List.mem_cons_self b c h12.1 h23.1,
+          ih bs cs (fun x hx => ht x (List.mem_cons_of_mem _ hx)) h12.2 h23.2⟩
+
+theorem eqN_refl {L : Type} [DecidableEq L] (G : Graph V) (lab : V → L) :
+    ∀ n a, eqN G lab n a a = true := by
+  intro n
+  induction n with
+  | zero => intro a; rfl
+  | succ n ih =>
+    intro a
+    simp only [eqN, Bool.and_eq_true, decide_eq_true_eq, true_and]
+    exact all2_refl _ _ (fun c _ => ih c)
+
+theorem eqN_symm {L : Type} [DecidableEq L] (G : Graph V) (lab : V → L) :
+    ∀ n a b, eqN G lab n a b = true → eqN G lab n b a = true := by
+  intro n
+  induction n with
+  | zero => intro a b _; rfl
+  | succ n ih =>
+    intro a b h
+    simp only [eqN, Bool.and_eq_true, decide_eq_true_eq] at h ⊢
+    exact ⟨h.1.symm, all2_symm _ _ _ (fun x _ y hxy => ih x y hxy) h.2⟩
+
+theorem eqN_trans {L : Type} [DecidableEq L] (G : Graph V) (lab : V → L) :
+    ∀ n a b c, eqN G lab n a b = true → eqN G lab n b c = true →
+      eqN G lab n a c = true := by
+  intro n
+  induction n with
+  | zero => intro a b c _ _; rfl
+  | succ n ih =>
+    intro a b c h1 h2
+    simp only [eqN, Bool.and_eq_true, decide_eq_true_eq] at h1 h2 ⊢
+    exact ⟨h1.1.trans h2.1,
+      all2_trans _ _ _ _ (fun x _ y z hxy hyz => ih x y z hxy hyz) h1.2 h2.2⟩
+
+/-- with enough fuel, children compared equal have equal values under *every*
+function computed from the non-child fields and the children's values --
+meaning (soundness / congruence: equal nodes denote the same) and hash
+(consistency: equal nodes hash equal) alike -/
+theorem all2_map_eq {M : Type} (r : V → V → Bool) (d : V → M) :
+    ∀ (l1 l2 : List V), (∀ a ∈ l1, ∀ b, r a b = true → d a = d b) →
+      all2 r l1 l2 = true → l1.map d = l2.map d := by
+  intro l1
+  induction l1 with
+  | nil => intro l2 _ h; cases l2 with
+    | nil => rfl
+    | cons b bs => simp [all2] at h
+  | cons a l1 ih =>
+    intro l2 hd h
+    cases l2 with
+    | nil => simp [all2] at h
+    | cons b bs =>
+      simp only [all2, Bool.and_eq_true] at h
+      simp only [List.map_cons]
+      rw [hd a List.mem_cons_self b h.1,
+        ih bs (fun x hx => hd x (List.mem_cons_of_mem _ hx)) h.2]
+
+theorem eqN_congr {L M : Type} [DecidableEq L] (G : Graph V) (lab : V → L)
+    (g : L → List M → M) :
+    ∀ n a b, G.rank a < n → eqN G lab n a b = true →
+      den G (fun v rs => g (lab v) rs) a = den G (fun v rs => g (lab v) rs) b := by
+  intro n
+  induction n with
+  | zero => intro a b h; exact absurd h (Nat.not_lt_zero _)
+  | succ n ih =>
+    intro a b hr h
+    simp only [eqN, Bool.and_eq_true, decide_eq_true_eq] at h
+    rw [den_eq, den_eq, h.1]
+    congr 1
+    apply all2_map_eq (eqN G lab n) _ _ _ _ h.2
+    intro x hx y hxy
+    have := G.dag a x hx
+    exact ih x y (by omega) hxy
+
 end Memo
 
+#print axioms Memo.eqN_congr
+#print axioms Memo.eqN_trans
+#print axioms Memo.traversal_preserves
 #print axioms Memo.traversal
 #print axioms Memo.runs_sum
